@@ -9,7 +9,7 @@ implementation's reported floats within a few-ulp tolerance."""
 import math
 from fractions import Fraction
 
-from .. import core
+from .. import core, history
 
 PID = "C12"
 THEOREMS = [
@@ -206,13 +206,138 @@ def _history(rng, tier):
     return {"cls": cls, "ctor": ctor, "ops": ops, "uv": uv}
 
 
+def _spans(pts):
+    """The points span a positive extent in birth, in persistence and in death (so both skew settings are inside
+    the property's quantifier)."""
+    return (len({q[0] for q in pts}) >= 2 and len({q[1] for q in pts}) >= 2
+            and len({Fraction(q[1]) - Fraction(q[0]) for q in pts}) >= 2)
+
+
+def _pool(rng, ps):
+    """2-3 diagrams, EACH spanning a positive extent on its own, so that any selection of them can be fitted."""
+    if rng.random() < 0.2:
+        pool = [[q for d in _near_dgms(rng, ps) for q in d]]          # near-whole quotients on both axes
+        nd = rng.randint(0, 1)
+    else:
+        pool, nd = [], rng.randint(2, 3)
+    span = ps * rng.uniform(1.5, 20)
+    b0 = rng.choice([0.0, -1.0, 0.3, rng.uniform(-2, 2), 1000.0])
+    for _ in range(nd):
+        d = []
+        for _ in range(rng.randint(2, 6)):
+            b = b0 + rng.choice([rng.uniform(0, span), ps * rng.randint(0, 8), 0.1 * rng.randint(0, 9)])
+            p = rng.choice([rng.uniform(0.01, span), ps * rng.randint(1, 8), 0.1 * rng.randint(1, 9)])
+            d.append([b, b + p])
+        pool.append(d)
+    for d in pool:
+        if not _spans(d):
+            d.append([b0 + span * 1.25, b0 + span * 1.25 + span * 0.75])
+            d.append([b0 - ps * 0.5, b0 - ps * 0.5 + ps * 0.3])
+    return pool
+
+
+LAYOUTS = ["C", "C", "C", "F", "view", "ro", "list"]
+
+
+def _shared_history(rng, pool=None, layout=None, ps=None):
+    """One imager whose fits (and the transforms that follow them) receive THE SAME array objects again and again:
+    a diagram repeated inside the list of one fit (bootstrap resample), the same diagrams fitted again after the
+    configuration changed, the array just fitted handed to transform.  `share` makes impl_call intern the arrays
+    by content; the predicate only ever looks at the JSON (pristine) data."""
+    ps = ps or _pixel_pool(rng)
+    pool = pool or _pool(rng, ps)
+    layout = layout or rng.choice(LAYOUTS)
+    ctor = {"br": _range_for(rng, ps), "pr": _range_for(rng, ps), "ps": ps, "ints": False}
+    allp = [q for d in pool for q in d]
+    pool_ext = max(max(q[0] for q in allp) - min(q[0] for q in allp),
+                   max(q[1] for q in allp) - min(q[1] for q in allp),
+                   max(q[1] - q[0] for q in allp) - min(q[1] - q[0] for q in allp))
+    if pool_ext / ps >= MAXPIX:
+        ctor["ps"] = ps = pool_ext / rng.uniform(5, 40)
+        ctor["br"], ctor["pr"] = _range_for(rng, ps), _range_for(rng, ps)
+    ext = [ctor["br"][1] - ctor["br"][0] + ps, ctor["pr"][1] - ctor["pr"][0] + ps]
+    nops = rng.randint(3, 7)
+    first = None
+    ops = []
+    for k in range(nops):
+        kind = "fit" if k in (0, nops - 1) else rng.choice(["fit", "fit", "pixel", "pixel", "birth", "pers"])
+        if kind == "birth":
+            r = _range_for(rng, ps); ops.append({"op": "birth", "r": r}); ext[0] = r[1] - r[0] + ps
+        elif kind == "pers":
+            r = _range_for(rng, ps); ops.append({"op": "pers", "r": r}); ext[1] = r[1] - r[0] + ps
+        elif kind == "pixel":
+            for _ in range(20):
+                q = _pixel_pool(rng)
+                if max(ext + [pool_ext]) / q < MAXPIX:
+                    break
+            else:
+                q = max(ext + [pool_ext]) / rng.uniform(5, 40)
+            ops.append({"op": "pixel", "ps": q}); ps = q
+            ext = [ext[0] + q, ext[1] + q]
+        else:
+            how = rng.choice(["one", "all", "boot", "boot"])
+            if how == "one":
+                idx = [rng.randrange(len(pool))]
+            elif how == "all":
+                idx = list(range(len(pool)))
+            else:                                   # resample with repeats: the same object several times in one list
+                idx = [rng.randrange(len(pool)) for _ in range(len(pool) + rng.randint(1, 3))]
+                idx.append(idx[0])
+            if first is None:
+                first = idx[0]
+            elif first not in idx:
+                idx.append(first)                   # every later fit meets an array that was fitted before
+            skew = rng.random() < 0.8
+            ops.append({"op": "fit", "dgms": [[list(q) for q in pool[i]] for i in idx], "skew": skew,
+                        "single": len(idx) == 1 and rng.random() < 0.6, "tf": rng.random() < 0.6})
+            ext = [pool_ext + ps, pool_ext + ps]
+    uv = [[rng.uniform(0.02, 0.98), rng.uniform(0.02, 0.98)] for _ in range(len(ops) + 1)]
+    return {"cls": "shared", "ctor": ctor, "ops": ops, "uv": uv, "share": True, "layout": layout}
+
+
+def _imagers(rng):
+    """Two or three imagers (different pixel sizes) configured and fitted one after the other, in one process, on
+    the same array objects (a coarse and a fine image of the same data)."""
+    ps = _pixel_pool(rng)
+    pool = _pool(rng, ps)
+    layout = rng.choice(LAYOUTS)
+    steps = [_shared_history(rng, pool, layout, ps)]
+    for _ in range(rng.randint(1, 2)):
+        steps.append(_shared_history(rng, pool, layout))
+    return history.make("imagers", steps)
+
+
+def _with_faults(rng, h):
+    """Marks operations of one imager's history as running where warnings are errors (`werr`): should persim warn
+    half-way through a setter / fit, the operation is interrupted there, the caller catches the Warning and keeps
+    using the imager.  At least one marked operation is followed by an unmarked one."""
+    ops = h["ops"]
+    for o in ops:
+        o["werr"] = rng.random() < 0.5
+    if len(ops) >= 2:
+        i = rng.randrange(len(ops) - 1)
+        ops[i]["werr"] = True
+        ops[rng.randrange(i + 1, len(ops))]["werr"] = False
+    h["cls"] = h["cls"] + "+werr"
+    return h
+
+
 def generate(rng, tier):
-    n = 500 if tier == "quick" else 12000
-    return [_history(rng, tier) for _ in range(n)]
+    n, ns, nh, nw = (500, 90, 18, 60) if tier == "quick" else (12000, 1500, 300, 1500)
+    return ([_history(rng, tier) for _ in range(n)] + [_shared_history(rng) for _ in range(ns)]
+            + [_imagers(rng) for _ in range(nh)]
+            + [_with_faults(rng, _history(rng, tier)) for _ in range(nw)]
+            + [_with_faults(rng, _shared_history(rng)) for _ in range(nw // 4)])
 
 
 def search_generate(rng, n):
-    return [_history(rng, "quick") for _ in range(n)]
+    def one(i):
+        if i % 10 == 9:
+            return _imagers(rng)
+        if i % 10 in (3, 6):
+            return _with_faults(rng, _history(rng, "quick"))
+        return _shared_history(rng) if i % 3 == 2 else _history(rng, "quick")
+    return [one(i) for i in range(n)]
 
 
 PS_W = float.fromhex("0x1.76f7bea3dabf5p-1")     # witness of imager_setter_float_refuted
@@ -253,6 +378,9 @@ def _snapshot(p, uv):
         p.kernel_params = {"sigma": [[sd * sd, 0.0], [0.0, sd * sd]]}
         img = np.asarray(p.transform(np.array([[x, y]], dtype=float), skew=False))
         snap["shape"] = [int(v) for v in img.shape]
+        keep = img
+        img = np.array(img, dtype=float)
+        history.scribble(keep)                     # the caller owns (and may overwrite) what transform returned
         margin = min([abs(x - t) for t in snap["bp"]] + [abs(y - t) for t in snap["pp"]] + [float("inf")])
         if img.size and margin > 1e-3 * snap["ps"]:
             i, j = np.unravel_index(int(np.argmax(img)), img.shape)
@@ -267,23 +395,71 @@ def _snapshot(p, uv):
     return snap
 
 
-def impl_run(cases):
+def _build_arr(d, layout):
+    """The caller's diagram object in one of the layouts a user may hold it in."""
+    import numpy as np
+    a = np.array(d, dtype=float).reshape(-1, 2)
+    if layout == "F":
+        return np.asfortranarray(a)
+    if layout == "view":                      # two columns / every other row of a larger table
+        big = np.full((2 * len(d) + 1, 4), 7.25)
+        big[1::2, 1:3] = a
+        return big[1::2, 1:3]
+    if layout == "ro":                        # e.g. a memory-mapped or frozen array
+        a.flags.writeable = False
+        return a
+    if layout == "list":
+        return [[float(b), float(e)] for b, e in d]
+    return a
+
+
+def _transform_fitted(p, arg, single, skew, ps):
+    """transform() of the very objects that were just fitted, through a very narrow Gaussian: per image its shape,
+    its total mass and the pixels that carry mass."""
+    import numpy as np
+    sd = 1e-4 * ps
+    saved = p.kernel_params
+    try:
+        p.kernel_params = {"sigma": [[sd * sd, 0.0], [0.0, sd * sd]]}
+        imgs = p.transform(arg, skew=skew)
+        recs = []
+        for img in ([imgs] if single else list(imgs)):
+            a = np.asarray(img, dtype=float)
+            rec = {"shape": [int(v) for v in a.shape], "sum": float(a.sum()), "nz": None}
+            if a.ndim == 2:
+                nz = np.argwhere(~(np.abs(a) <= 1e-9))
+                if len(nz) <= 400:
+                    rec["nz"] = [[int(i), int(j), float(a[i, j])] for i, j in nz]
+            recs.append(rec)
+        history.scribble(imgs)                # the caller owns what transform returned
+        return recs
+    except Exception as e:  # noqa
+        return {"error": "%s: %s" % (type(e).__name__, str(e)[:160])}
+    finally:
+        p.kernel_params = saved
+
+
+def impl_call(c, memo):
+    """One configuration history on one imager.  With c["share"] the diagrams are interned in `memo` by content:
+    equal diagrams - inside one fit, in later fits, in the transform after a fit, in histories of OTHER imagers of
+    the same composite case - are the same objects.  Without it every call gets fresh arrays."""
     import numpy as np
     from persim import PersistenceImager
-    outs = []
-    for c in cases:
-        snaps = []
-        try:
-            ct = c["ctor"]
-            conv = (lambda v: int(v)) if ct.get("ints") else float
-            if ct.get("default"):
-                p = PersistenceImager(pixel_size=conv(ct["ps"]), weight=_const_weight, weight_params={})
-            else:
-                p = PersistenceImager(birth_range=tuple(conv(v) for v in ct["br"]),
-                                      pers_range=tuple(conv(v) for v in ct["pr"]),
-                                      pixel_size=conv(ct["ps"]), weight=_const_weight, weight_params={})
-            snaps.append(_snapshot(p, c["uv"][0]))
-            for k, o in enumerate(c["ops"]):
+    snaps = []
+    try:
+        ct = c["ctor"]
+        conv = (lambda v: int(v)) if ct.get("ints") else float
+        if ct.get("default"):
+            p = PersistenceImager(pixel_size=conv(ct["ps"]), weight=_const_weight, weight_params={})
+        else:
+            p = PersistenceImager(birth_range=tuple(conv(v) for v in ct["br"]),
+                                  pers_range=tuple(conv(v) for v in ct["pr"]),
+                                  pixel_size=conv(ct["ps"]), weight=_const_weight, weight_params={})
+        snaps.append(_snapshot(p, c["uv"][0]))
+        for k, o in enumerate(c["ops"]):
+            state = {"tf": None}
+
+            def apply(o=o, state=state):
                 if o["op"] == "birth":
                     p.birth_range = tuple(float(v) for v in o["r"])
                 elif o["op"] == "pers":
@@ -291,13 +467,44 @@ def impl_run(cases):
                 elif o["op"] == "pixel":
                     p.pixel_size = float(o["ps"])
                 else:
-                    arrs = [np.array(d, dtype=float).reshape(-1, 2) for d in o["dgms"]]
-                    p.fit(arrs[0] if o.get("single") else arrs, skew=o["skew"])
-                snaps.append(_snapshot(p, c["uv"][k + 1]))
-            outs.append({"snaps": snaps})
-        except Exception as e:  # noqa
-            outs.append({"error": type(e).__name__, "msg": str(e)[:200], "snaps": snaps})
-    return outs
+                    if c.get("share"):
+                        lay = c.get("layout", "C")
+                        arrs = [history.intern(memo, ["dgm", lay, d], lambda d=d: _build_arr(d, lay)) for d in o["dgms"]]
+                    else:
+                        arrs = [np.array(d, dtype=float).reshape(-1, 2) for d in o["dgms"]]
+                    arg = arrs[0] if o.get("single") else arrs
+                    p.fit(arg, skew=o["skew"])
+                    if o.get("tf"):
+                        state["tf"] = (arg, float(p.pixel_size))
+
+            raised = None
+            if o.get("werr"):
+                # the operation runs in a process where warnings are errors (python -W error, pytest -W error); the
+                # caller catches the Warning and goes on using the imager.  The unchanged code warns nowhere here.
+                import warnings
+                with warnings.catch_warnings():
+                    warnings.simplefilter("error")
+                    try:
+                        apply()
+                    except Warning as w:
+                        raised = "%s: %s" % (type(w).__name__, str(w)[:160])
+            else:
+                apply()
+            tf = None
+            if state["tf"] is not None and raised is None:
+                tf = _transform_fitted(p, state["tf"][0], bool(o.get("single")), o["skew"], state["tf"][1])
+            snaps.append(_snapshot(p, c["uv"][k + 1]))
+            if tf is not None:
+                snaps[-1]["tf"] = tf
+            if raised is not None:
+                snaps[-1]["raised"] = raised
+        return {"snaps": snaps}
+    except Exception as e:  # noqa
+        return {"error": type(e).__name__, "msg": str(e)[:200], "snaps": snaps}
+
+
+def impl_run(cases):
+    return [history.run(c, impl_call) if history.is_hist(c) else impl_call(c, {}) for c in cases]
 
 
 # ------------------------------------------------------------------------------------ the spec
@@ -341,7 +548,52 @@ def _axis(name, lo, hi, ext, res, mesh, ps, tol):
     return None
 
 
+def _fitted_images(c, k, s, ps, blo, plo):
+    """Images of the diagrams fitted at step k (the same objects were handed to transform right after the fit):
+    each has the reported resolution, and - seen through the narrow kernel - every fitted point (taken from the
+    case's own data, never from the arrays persim saw) that lies inside a pixel of the REPORTED geometry puts its
+    unit mass there; no mass appears away from the points."""
+    tf = s.get("tf")
+    if tf is None:
+        return None
+    op = c["ops"][k - 1]
+    if isinstance(tf, dict):
+        return "shape: transform of the fitted diagrams raised %s" % tf.get("error")
+    if len(tf) != len(op["dgms"]):
+        return "shape: transform returned %d images for %d diagrams" % (len(tf), len(op["dgms"]))
+    rw, rh = s["res"]
+    for n, (rec, d) in enumerate(zip(tf, op["dgms"])):
+        if list(rec["shape"]) != [rw, rh]:
+            return "shape: image %d of the fitted diagrams has shape %s, resolution is %s" % (n, rec["shape"], s["res"])
+        strict, near = {}, set()
+        for b, e in d:
+            u = (_F(b) - blo) / ps
+            v = ((_F(e) - _F(b)) if op["skew"] else _F(e)) - plo
+            v = v / ps
+            i, j = math.floor(u), math.floor(v)
+            for di in (-1, 0, 1):
+                for dj in (-1, 0, 1):
+                    near.add((i + di, j + dj))
+            if min(u - i, i + 1 - u, v - j, j + 1 - v) > Fraction(1, 1000):
+                strict[(i, j)] = strict.get((i, j), 0) + 1
+        if not (rec["sum"] <= len(d) + 1e-6):
+            return "landing: image %d of the fitted diagrams carries mass %r for %d points" % (n, rec["sum"], len(d))
+        if rec["nz"] is None:
+            return "landing: image %d of the fitted diagrams has mass in more than 400 pixels for %d points" % (n, len(d))
+        got = {(i, j): val for i, j, val in rec["nz"]}
+        for ij, cnt in sorted(strict.items()):
+            if not (got.get(ij, 0.0) >= cnt - 1e-6):
+                return "landing: image %d of the fitted diagrams: %d fitted point(s) lie in pixel %s of the reported geometry, mass there is %r" % (
+                    n, cnt, ij, got.get(ij, 0.0))
+        for ij, val in sorted(got.items()):
+            if not (abs(val) <= 1e-6) and ij not in near:
+                return "landing: image %d of the fitted diagrams has mass %r in pixel %s, no fitted point is near it" % (n, val, ij)
+    return None
+
+
 def predicate(c, o):
+    if history.is_hist(c):
+        return history.predicate(c, o, predicate)
     if "error" in o:
         return False, "exception: %s %s after %d steps" % (o["error"], o.get("msg"), len(o.get("snaps", [])))
     snaps = o["snaps"]
@@ -355,12 +607,16 @@ def predicate(c, o):
         scale = max(abs(blo), abs(bhi), abs(plo), abs(phi), ps, w, h)
         tol = ULPS * EPS * scale
         where = "step %d (%s)" % (k, "constructor" if k == 0 else c["ops"][k - 1]["op"])
-        want_ps = _F(c["ctor"]["ps"])
-        for q in c["ops"][:k]:
+        if s.get("raised"):
+            # the operation was interrupted by a warning-turned-error and the caller caught it: nothing is asked of
+            # this step itself; every LATER operation that succeeds must leave a self-consistent imager again
+            continue
+        want_ps = [_F(c["ctor"]["ps"])]
+        for q, sq in zip(c["ops"][:k], snaps[1:]):
             if q["op"] == "pixel":
-                want_ps = _F(q["ps"])
-        if ps != want_ps:
-            return False, "pixel: %s: pixel_size %s is not the configured %s" % (where, s["ps"], float(want_ps))
+                want_ps = (want_ps if sq.get("raised") else []) + [_F(q["ps"])]   # interrupted: old or new
+        if ps not in want_ps:
+            return False, "pixel: %s: pixel_size %s is not the configured %s" % (where, s["ps"], float(want_ps[-1]))
         for msg in (_axis("birth", blo, bhi, w, rw, [_F(t) for t in s["bp"]], ps, tol),
                     _axis("pers", plo, phi, h, rh, [_F(t) for t in s["pp"]], ps, tol)):
             if msg:
@@ -370,8 +626,11 @@ def predicate(c, o):
                 where, s["shape"], s.get("shape_error"), s["res"])
         prev = snaps[k - 1] if k else None
         req = _requested(c, k, prev)
+        after_fault = bool(prev and prev.get("raised"))
         for name, lo, hi, ext, rlo, rhi, pk in (("birth", blo, bhi, w, req[0], req[1], "br"),
                                                 ("pers", plo, phi, h, req[2], req[3], "pr")):
+            if after_fault and (rlo is None or c["ops"][k - 1]["op"] == "pixel"):
+                continue        # "as it was before" is not defined right after an interrupted operation
             if rlo is None:
                 if abs(lo - _F(prev[pk][0])) > tol or abs(hi - _F(prev[pk][1])) > tol:
                     return False, "untouched: %s: %s range moved from %s to %s" % (where, name, prev[pk], s[pk])
@@ -382,6 +641,9 @@ def predicate(c, o):
             if ext - (rhi - rlo) > ps + tol:
                 return False, "excess: %s: %s extent %s exceeds the requested %s by more than one pixel %s" % (
                     where, name, float(ext), float(rhi - rlo), float(ps))
+        msg = _fitted_images(c, k, s, ps, blo, plo)
+        if msg:
+            return False, msg.split(":")[0] + ": " + where + ":" + msg.split(":", 1)[1]
         if s["land"] is not None:
             x, y, i, j = s["land"]
             ei = math.floor((_F(x) - blo) / ps)
@@ -393,6 +655,8 @@ def predicate(c, o):
 
 
 def nontrivial(c, o):
+    if history.is_hist(c):
+        return history.nontrivial(c, o, nontrivial)
     if "error" in o or len(c["ops"]) < 3:
         return False
     snaps = o["snaps"]
@@ -477,28 +741,47 @@ def coq_jobs(cases, outs):
 
 
 def coq_judge(cases, outs, results):
-    verdicts = ["disagree:implementation raised or returned a malformed history"] * len(cases)
-    idx, terms = [], []
+    # composite cases (several imagers in one process) are judged imager by imager
+    flat = []                                   # (index of the case, one imager's history, its output)
     for i, (c, o) in enumerate(zip(cases, outs)):
+        if history.is_hist(c):
+            hs = o.get("hist") or []
+            hs = hs if len(hs) == len(c["seq"]) else [{"error": "harness"}] * len(c["seq"])
+            flat.extend((i, s, so) for s, so in zip(c["seq"], hs))
+        else:
+            flat.append((i, c, o))
+    bad = "disagree:implementation raised or returned a malformed history"
+    fv = [bad] * len(flat)
+    idx, terms = [], []
+    for n, (i, c, o) in enumerate(flat):
         if "error" in o or len(o.get("snaps", [])) != len(c["ops"]) + 1:
             continue
-        idx.append(i)
+        idx.append(n)
         terms.append(_term(c, o))
     toks, _ = core.eval_cases(PID, HEADER, terms, chunk=max(1, (len(terms) + core.NPROC - 1) // core.NPROC))
-    for i, t in zip(idx, toks):
+    for n, t in zip(idx, toks):
         try:
             code = int(t.replace("%Z", "").strip("() "))
         except ValueError:
-            verdicts[i] = "disagree:model run failed (%s)" % t[:40]
+            fv[n] = "disagree:model run failed (%s)" % t[:40]
             continue
         intended, legacy = code % 100000, code // 100000
         if intended == 0:
-            verdicts[i] = "agree"
+            fv[n] = "agree"
         elif legacy == 0:
-            verdicts[i] = "legacy:C12-imager-truncation"
+            fv[n] = "legacy:C12-imager-truncation"
         else:
-            verdicts[i] = "disagree:float model differs at %s (legacy model: %s)" % (
+            fv[n] = "disagree:float model differs at %s (legacy model: %s)" % (
                 _describe(intended), _describe(legacy))
+    per = {}
+    for (i, _c, _o), v in zip(flat, fv):
+        per.setdefault(i, []).append(v)
+    verdicts = []
+    for i in range(len(cases)):
+        vs = per.get(i, [bad])
+        dis = [v for v in vs if v.startswith("disagree")]
+        leg = [v for v in vs if v.startswith("legacy")]
+        verdicts.append(dis[0] if dis else leg[0] if leg else "agree")
     return verdicts
 
 
@@ -506,13 +789,23 @@ def finding_of(case, out, detail):
     return None
 
 
-def shrink_candidates(c):
+def _smaller(c):
+    """Smaller variants, the biggest reductions first."""
+    if history.is_hist(c):
+        if len(c["seq"]) == 1:
+            yield c["seq"][0]                    # one imager on its own: not an effect between imagers
+        yield from history.shrink(c)
+        for i, s in enumerate(c["seq"]):        # shrink one imager's history, keeping the others
+            for t in _smaller(s):
+                d = dict(c); d["seq"] = c["seq"][:i] + [t] + c["seq"][i + 1:]
+                yield d
+        return
     n = len(c["ops"])
-    for k in range(n - 1, -1, -1):          # drop one operation
-        d = dict(c); d["ops"] = c["ops"][:k] + c["ops"][k + 1:]; d["uv"] = c["uv"][:k + 1] + c["uv"][k + 2:]
-        yield d
     for k in range(n):                      # cut the history after operation k
         d = dict(c); d["ops"] = c["ops"][:k]; d["uv"] = c["uv"][:k + 1]
+        yield d
+    for k in range(n - 1, -1, -1):          # drop one operation
+        d = dict(c); d["ops"] = c["ops"][:k] + c["ops"][k + 1:]; d["uv"] = c["uv"][:k + 1] + c["uv"][k + 2:]
         yield d
     for k, o in enumerate(c["ops"]):
         if o["op"] == "fit":
@@ -521,9 +814,36 @@ def shrink_candidates(c):
                     d = dict(c); d["ops"] = list(c["ops"])
                     d["ops"][k] = dict(o, dgms=o["dgms"][:i] + o["dgms"][i + 1:], single=False)
                     yield d
+    for k, o in enumerate(c["ops"]):
+        if o["op"] == "fit" and not c.get("share"):
+            for i, dg in enumerate(o["dgms"]):
                 for j in range(len(dg)):
                     if len(dg) > 1:
                         d = dict(c); d["ops"] = list(c["ops"])
                         nd = [list(x) for x in o["dgms"]]; nd[i] = dg[:j] + dg[j + 1:]
                         d["ops"][k] = dict(o, dgms=nd)
                         yield d
+    for k, o in enumerate(c["ops"]):
+        if o.get("werr") or o.get("tf"):
+            d = dict(c); d["ops"] = list(c["ops"])
+            d["ops"][k] = {a: b for a, b in o.items() if a not in ("werr", "tf")}
+            yield d
+
+
+def shrink_candidates(c):
+    """core.shrink tries the candidates one by one, each in a fresh interpreter; to keep that affordable all
+    candidates are first evaluated together in ONE interpreter and only those that fail there are offered (core
+    still confirms each of them on its own)."""
+    cands = []
+    for d in _smaller(c):
+        cands.append(d)
+        if len(cands) >= 150:
+            break
+    if not cands:
+        return
+    try:
+        outs = core.run_impl("c12", cands)
+        keep = [d for d, o in zip(cands, outs) if not predicate(d, o)[0]]
+    except Exception:  # noqa
+        keep = cands
+    yield from keep[:4]
